@@ -691,3 +691,31 @@ fn first_diff(a: &DynMsg, b: &DynMsg) -> String {
     }
     "no difference found".into()
 }
+
+/// Byte-level fuzz entry (libFuzzer target `wire_bytes`): arbitrary bytes against every message type.
+/// If the Rust binding accepts them, its re-encoding must be readable under the published schema,
+/// contain no field unknown to the schema, and carry exactly the content the binding holds by name.
+pub fn fuzz_bytes(data: &[u8]) {
+    let sc = schemas();
+    let Ok(s) = &sc.proto else {
+        eprintln!("FUZZ-FAILURE signature=C07/proto-unreadable");
+        std::process::abort();
+    };
+    for e in registry() {
+        let Ok((mut proj, re, _rt)) = (e.run)(data) else { continue };
+        fix_map_zero(&mut proj, s);
+        match decode(s, e.full, &re) {
+            Ok((mut d, unknown)) => {
+                fix_map_zero(&mut d, s);
+                if unknown != 0 || d != proj {
+                    eprintln!("FUZZ-FAILURE signature=C07/bytes/reencoded-content/{}\ninput {}\nre-encoded {}\nby name {:?}\nunder schema {:?} ({unknown} unknown fields)", e.full, crate::tape::to_hex(data), crate::tape::to_hex(&re), proj, d);
+                    std::process::abort();
+                }
+            }
+            Err(err) => {
+                eprintln!("FUZZ-FAILURE signature=C07/bytes/rust-encoding-unreadable/{}\ninput {}\nre-encoded {}\n{err}", e.full, crate::tape::to_hex(data), crate::tape::to_hex(&re));
+                std::process::abort();
+            }
+        }
+    }
+}
